@@ -29,7 +29,7 @@ def jacobian_check(t, x, ctx):
 
 
 def search(ck, tier, seed):
-    ents = catalogue.entries(tier)
+    ents = catalogue.entries(tier) + catalogue.boundary_entries()
     nseeds = 1 if tier == "quick" else 3
     for e in ents:
         for s in range(nseeds):
@@ -37,11 +37,24 @@ def search(ck, tier, seed):
             ck.case(("c01", e["name"], s), nontrivial=True)
             ck.count(e["name"].split("(")[0].split("[")[0])
             case = {"search": "jacobian", "entry": e["name"], "seed": seed + s}
+            if t[0] != "ok" and e.get("boundary"):
+                continue        # a degenerate configuration the constructor rejects
             if t[0] != "ok":
                 ck.finding("transform:constructor-fails:%s" % e["name"], "%s: %s %s" % (e["name"], t[1], t[2]), case)
                 continue
             t = t[1]
             x, ctx = catalogue.sample_inputs(e, 3, seed + 10 + s)
+            if any(hasattr(m, "cache") and hasattr(m, "use_cache") for m in t.modules()) and s % 2 == 0:
+                # a caching transform: let an inverse pass fill the cache first, so that the forward pass reads what the
+                # inverse stored (the other order is what the plain check below exercises on odd seeds / thorough runs)
+                with torch.no_grad():
+                    y0 = attempt(lambda: t(x, ctx)[0])
+                for m in t.modules():
+                    if hasattr(m, "cache") and hasattr(m, "use_cache"):
+                        m.cache.invalidate()
+                if y0[0] == "ok":
+                    with torch.no_grad():
+                        attempt(t.inverse, y0[1], ctx)
             r = attempt(jacobian_check, t, x, ctx)
             if r[0] != "ok":
                 ck.finding("transform:forward-or-jacobian-fails:%s" % e["name"], "%s: %s %s" % (e["name"], r[1], r[2]), case)
